@@ -23,6 +23,7 @@ type Clause struct {
 
 type LoopSpec struct {
 	Assumes    []*Clause // trusted facts assumed on loop entry (counted as assumptions)
+	IterAssumes []*Clause // trusted facts assumed at the head in every iteration (counted as assumptions)
 	Invariants []*Clause
 	Decreases  *Clause
 	Modifies   []Expr
@@ -500,6 +501,12 @@ func (fs *FuncSpec) addClause(t, file string, ln int) error {
 				return err
 			}
 			ls.Assumes = append(ls.Assumes, c)
+		case "assume_iter":
+			c, err := mk("assume", body)
+			if err != nil {
+				return err
+			}
+			ls.IterAssumes = append(ls.IterAssumes, c)
 		case "decreases":
 			c, err := mk("decreases", body)
 			if err != nil {
